@@ -19,10 +19,10 @@ import (
 
 // ---------------------------------------------------------------- generators shared by C05/C06/C10
 
-var nameShapes = []string{"plain", "long", "max", "stack", "ditto", "nul", "binary", "dots", "one", "truncated", "nl-end", "nl-mid", "ditto-first", "ditto-name", "stack-nodots"}
+var vfNameShapes = []string{"plain", "long", "max", "stack", "ditto", "nul", "binary", "dots", "one", "truncated", "nl-end", "nl-mid", "ditto-first", "ditto-name", "stack-nodots"}
 
-// genName returns a counter name of the given shape, unique through uniq.
-func genName(r *verifrt.Rand, shape string, uniq int) string {
+// vfGenName returns a counter name of the given shape, unique through uniq.
+func vfGenName(r *verifrt.Rand, shape string, uniq int) string {
 	u := fmt.Sprintf("u%d", uniq)
 	switch shape {
 	case "one":
@@ -66,11 +66,11 @@ func genName(r *verifrt.Rand, shape string, uniq int) string {
 	return u
 }
 
-// genEntries returns n entries with unique names (and unique expansions).
-func genEntries(r *verifrt.Rand, n int) []verifref.Entry {
+// vfGenEntries returns n entries with unique names (and unique expansions).
+func vfGenEntries(r *verifrt.Rand, n int) []verifref.Entry {
 	es := make([]verifref.Entry, 0, n)
 	for i := 0; i < n; i++ {
-		shape := nameShapes[r.Intn(len(nameShapes))]
+		shape := vfNameShapes[r.Intn(len(vfNameShapes))]
 		if shape == "max" && r.Intn(4) != 0 {
 			shape = "plain"
 		}
@@ -85,17 +85,17 @@ func genEntries(r *verifrt.Rand, n int) []verifref.Entry {
 		default:
 			v = r.Uint64() >> uint(r.Intn(64))
 		}
-		es = append(es, verifref.Entry{Name: genName(r, shape, i), Value: v})
+		es = append(es, verifref.Entry{Name: vfGenName(r, shape, i), Value: v})
 	}
 	return es
 }
 
-func genMeta(r *verifrt.Rand) string {
+func vfGenMeta(r *verifrt.Rand) string {
 	switch r.Intn(10) {
 	case 8, 9:
 		// metadata close to the cap of 512 bytes (a long program path): the
 		// header then extends beyond 512 bytes
-		m := stackMeta(r.Intn(100))
+		m := vfStackMeta(r.Intn(100))
 		pad := 470 + r.Intn(43) - len(m)
 		if pad < 10 {
 			return m
@@ -107,7 +107,7 @@ func genMeta(r *verifrt.Rand) string {
 	case 6:
 		return "\nLeadingBlank: x\nDup: 1\nDup: 2\nTrailing: space \n"
 	case 7:
-		m := stackMeta(r.Intn(100))
+		m := vfStackMeta(r.Intn(100))
 		k := r.Intn(len(m))
 		if j := strings.IndexByte(m[k:], '\n'); j >= 0 {
 			// an extra key after an empty line somewhere inside ordinary metadata
@@ -123,12 +123,12 @@ func genMeta(r *verifrt.Rand) string {
 	case 3:
 		return "A: b: c\nEmpty: \nUnicode: héllo wörld\n"
 	}
-	return stackMeta(r.Intn(100))
+	return vfStackMeta(r.Intn(100))
 }
 
-// writeWithLibrary writes the entries through the library's own writer and
+// vfWriteWithLibrary writes the entries through the library's own writer and
 // returns the file's bytes.
-func writeWithLibrary(dir string, meta string, es []verifref.Entry) ([]byte, error) {
+func vfWriteWithLibrary(dir string, meta string, es []verifref.Entry) ([]byte, error) {
 	name := filepath.Join(dir, "lib.v1.count")
 	os.Remove(name)
 	m, err := openMapped(name, meta)
@@ -151,26 +151,26 @@ func writeWithLibrary(dir string, meta string, es []verifref.Entry) ([]byte, err
 	return os.ReadFile(name)
 }
 
-// A damage is a targeted corruption of a valid file.
-type damage struct {
+// A vfDamage is a targeted corruption of a valid file.
+type vfDamage struct {
 	class string
 	apply func(r *verifrt.Rand, d []byte, cf *verifref.CounterFile) []byte
 }
 
-func put32(d []byte, off uint32, v uint32) {
+func vfPut32(d []byte, off uint32, v uint32) {
 	if int(off)+4 <= len(d) {
 		binary.LittleEndian.PutUint32(d[off:], v)
 	}
 }
 
-func anyRecord(r *verifrt.Rand, cf *verifref.CounterFile) (verifref.Record, bool) {
+func vfAnyRecord(r *verifrt.Rand, cf *verifref.CounterFile) (verifref.Record, bool) {
 	if len(cf.Records) == 0 {
 		return verifref.Record{}, false
 	}
 	return cf.Records[r.Intn(len(cf.Records))], true
 }
 
-func stackRecord(cf *verifref.CounterFile) (verifref.Record, bool) {
+func vfStackRecord(cf *verifref.CounterFile) (verifref.Record, bool) {
 	for _, rec := range cf.Records {
 		if strings.Contains(rec.Name, "\n\"") {
 			return rec, true
@@ -179,54 +179,54 @@ func stackRecord(cf *verifref.CounterFile) (verifref.Record, bool) {
 	return verifref.Record{}, false
 }
 
-var damages = []damage{
+var vfDamages = []vfDamage{
 	{"hdrlen-small", func(r *verifrt.Rand, d []byte, cf *verifref.CounterFile) []byte {
-		put32(d, 28, uint32(verifrt.Pick(r, []int{0, 1, 4, 16, 28, 31})))
+		vfPut32(d, 28, uint32(verifrt.Pick(r, []int{0, 1, 4, 16, 28, 31})))
 		return d
 	}},
 	{"hdrlen-unaligned", func(r *verifrt.Rand, d []byte, cf *verifref.CounterFile) []byte {
-		put32(d, 28, cf.HdrLen+uint32(1+r.Intn(31)))
+		vfPut32(d, 28, cf.HdrLen+uint32(1+r.Intn(31)))
 		return d
 	}},
 	{"hdrlen-huge", func(r *verifrt.Rand, d []byte, cf *verifref.CounterFile) []byte {
-		put32(d, 28, uint32(verifrt.Pick(r, []int{16383, 16384, 16385, 1 << 20, 1<<31 - 1, -1})))
+		vfPut32(d, 28, uint32(verifrt.Pick(r, []int{16383, 16384, 16385, 1 << 20, 1<<31 - 1, -1})))
 		return d
 	}},
 	{"hdrlen-near-end", func(r *verifrt.Rand, d []byte, cf *verifref.CounterFile) []byte {
-		put32(d, 28, uint32(len(d)-r.Intn(8)))
+		vfPut32(d, 28, uint32(len(d)-r.Intn(8)))
 		return d
 	}},
 	{"limit", func(r *verifrt.Rand, d []byte, cf *verifref.CounterFile) []byte {
-		put32(d, cf.HdrLen, uint32(verifrt.Pick(r, []int{0, 1, int(cf.HdrLen), int(cf.HdrLen) + 100, len(d) + 1, len(d) + 16384, -1, 33})))
+		vfPut32(d, cf.HdrLen, uint32(verifrt.Pick(r, []int{0, 1, int(cf.HdrLen), int(cf.HdrLen) + 100, len(d) + 1, len(d) + 16384, -1, 33})))
 		return d
 	}},
 	{"head-bad", func(r *verifrt.Rand, d []byte, cf *verifref.CounterFile) []byte {
 		b := uint32(r.Intn(verifref.NumHash))
-		put32(d, cf.HdrLen+4+4*b, uint32(verifrt.Pick(r, []int{1, 31, int(cf.HdrLen), int(cf.HdrLen) + 8, len(d) - 16, len(d) - 15, len(d), len(d) + 32, -1, -16})))
+		vfPut32(d, cf.HdrLen+4+4*b, uint32(verifrt.Pick(r, []int{1, 31, int(cf.HdrLen), int(cf.HdrLen) + 8, len(d) - 16, len(d) - 15, len(d), len(d) + 32, -1, -16})))
 		return d
 	}},
 	{"next-bad", func(r *verifrt.Rand, d []byte, cf *verifref.CounterFile) []byte {
-		rec, ok := anyRecord(r, cf)
+		rec, ok := vfAnyRecord(r, cf)
 		if !ok {
 			return nil
 		}
-		put32(d, rec.Off+12, uint32(verifrt.Pick(r, []int{1, int(rec.Off) + 8, len(d) - 4, len(d), -1, int(cf.HdrLen) + 4})))
+		vfPut32(d, rec.Off+12, uint32(verifrt.Pick(r, []int{1, int(rec.Off) + 8, len(d) - 4, len(d), -1, int(cf.HdrLen) + 4})))
 		return d
 	}},
 	{"next-self", func(r *verifrt.Rand, d []byte, cf *verifref.CounterFile) []byte {
-		rec, ok := anyRecord(r, cf)
+		rec, ok := vfAnyRecord(r, cf)
 		if !ok {
 			return nil
 		}
-		put32(d, rec.Off+12, rec.Off)
+		vfPut32(d, rec.Off+12, rec.Off)
 		return d
 	}},
 	{"next-self-stack", func(r *verifrt.Rand, d []byte, cf *verifref.CounterFile) []byte {
-		rec, ok := stackRecord(cf)
+		rec, ok := vfStackRecord(cf)
 		if !ok {
 			return nil
 		}
-		put32(d, rec.Off+12, rec.Off)
+		vfPut32(d, rec.Off+12, rec.Off)
 		return d
 	}},
 	{"cycle-2", func(r *verifrt.Rand, d []byte, cf *verifref.CounterFile) []byte {
@@ -235,8 +235,8 @@ var damages = []damage{
 		}
 		a := cf.Records[r.Intn(len(cf.Records))]
 		b := cf.Records[r.Intn(len(cf.Records))]
-		put32(d, a.Off+12, b.Off)
-		put32(d, b.Off+12, a.Off)
+		vfPut32(d, a.Off+12, b.Off)
+		vfPut32(d, b.Off+12, a.Off)
 		return d
 	}},
 	{"cycle-long", func(r *verifrt.Rand, d []byte, cf *verifref.CounterFile) []byte {
@@ -245,26 +245,26 @@ var damages = []damage{
 			return nil
 		}
 		for i, rec := range cf.Records {
-			put32(d, rec.Off+12, cf.Records[(i+1)%len(cf.Records)].Off)
+			vfPut32(d, rec.Off+12, cf.Records[(i+1)%len(cf.Records)].Off)
 		}
 		return d
 	}},
 	{"cross-link", func(r *verifrt.Rand, d []byte, cf *verifref.CounterFile) []byte {
 		// a second bucket head pointing into another bucket's chain (shared tail => duplicate names)
-		rec, ok := anyRecord(r, cf)
+		rec, ok := vfAnyRecord(r, cf)
 		if !ok {
 			return nil
 		}
 		b := uint32(r.Intn(verifref.NumHash))
-		put32(d, cf.HdrLen+4+4*b, rec.Off)
+		vfPut32(d, cf.HdrLen+4+4*b, rec.Off)
 		return d
 	}},
 	{"namelen", func(r *verifrt.Rand, d []byte, cf *verifref.CounterFile) []byte {
-		rec, ok := anyRecord(r, cf)
+		rec, ok := vfAnyRecord(r, cf)
 		if !ok {
 			return nil
 		}
-		put32(d, rec.Off+8, uint32(verifrt.Pick(r, []int{0, 0xff000000, 4097, 0x00ffffff, len(d) - int(rec.Off) - 16, len(d) - int(rec.Off) - 15, -1})))
+		vfPut32(d, rec.Off+8, uint32(verifrt.Pick(r, []int{0, 0xff000000, 4097, 0x00ffffff, len(d) - int(rec.Off) - 16, len(d) - int(rec.Off) - 15, -1})))
 		return d
 	}},
 	{"truncate", func(r *verifrt.Rand, d []byte, cf *verifref.CounterFile) []byte {
@@ -297,20 +297,20 @@ var damages = []damage{
 	{"random-words", func(r *verifrt.Rand, d []byte, cf *verifref.CounterFile) []byte {
 		for i, n := 0, 1+r.Intn(6); i < n; i++ {
 			off := uint32(r.Intn(len(d)/4)) * 4
-			put32(d, off, uint32(r.Uint64()))
+			vfPut32(d, off, uint32(r.Uint64()))
 		}
 		return d
 	}},
 }
 
-// genValidFile builds a well-formed file with the reference writer.
-func genValidFile(r *verifrt.Rand, maxEntries int) ([]byte, string, []verifref.Entry) {
+// vfGenValidFile builds a well-formed file with the reference writer.
+func vfGenValidFile(r *verifrt.Rand, maxEntries int) ([]byte, string, []verifref.Entry) {
 	n := r.Intn(maxEntries + 1)
 	if r.Intn(10) == 0 {
 		n = 0
 	}
-	es := genEntries(r, n)
-	meta := genMeta(r)
+	es := vfGenEntries(r, n)
+	meta := vfGenMeta(r)
 	d, err := verifref.BuildCounterFile(meta, es)
 	if err != nil {
 		panic(err)
@@ -320,9 +320,9 @@ func genValidFile(r *verifrt.Rand, maxEntries int) ([]byte, string, []verifref.E
 
 // ---------------------------------------------------------------- C06
 
-func parseTickBudget(n int) int64 { return 64*int64(n) + 1_000_000 }
+func vfParseTickBudget(n int) int64 { return 64*int64(n) + 1_000_000 }
 
-type parseOutcome struct {
+type vfParseOutcome struct {
 	f      *File
 	err    error
 	pv     any
@@ -331,15 +331,15 @@ type parseOutcome struct {
 	ticks  int64
 }
 
-func monitoredParse(data0 []byte) parseOutcome {
-	var o parseOutcome
+func vfMonitoredParse(data0 []byte) vfParseOutcome {
+	var o vfParseOutcome
 	// The input ends at an inaccessible page, as a mapped counter file does
 	// (ReadMapped; file sizes are multiples of the page size): a read beyond
 	// the input is a fault, not a silent read of neighbouring memory.
 	data, free := verifrt.GuardedCopy(data0)
 	defer free()
-	verifrt.SetTickBudget(parseTickBudget(len(data)))
-	o.pv, o.stack = guarded(func() {
+	verifrt.SetTickBudget(vfParseTickBudget(len(data)))
+	o.pv, o.stack = vfGuarded(func() {
 		o.f, o.err = Parse("verif.v1.count", data)
 		if o.f != nil {
 			// (the result must not refer to the input once it is gone)
@@ -354,7 +354,7 @@ func monitoredParse(data0 []byte) parseOutcome {
 	return o
 }
 
-func saveInput(res *verifrt.Result, tag string, data []byte) string {
+func vfSaveInput(res *verifrt.Result, tag string, data []byte) string {
 	dir := filepath.Join(os.Getenv("VERIF_REPLAY_DIR"), "inputs")
 	os.MkdirAll(dir, 0o755)
 	p := filepath.Join(dir, fmt.Sprintf("%s-%s.bin", tag, verifrt.Hash(data)))
@@ -362,19 +362,19 @@ func saveInput(res *verifrt.Result, tag string, data []byte) string {
 	return p
 }
 
-func judgeTotality(res *verifrt.Result, check string, i int, class string, data []byte, o parseOutcome) bool {
+func vfJudgeTotality(res *verifrt.Result, check string, i int, class string, data []byte, o vfParseOutcome) bool {
 	switch {
 	case o.ticked:
 		sig := "parse.loop:" + strings.SplitN(class, "+", 2)[0]
 		if res.NumViolations() < 50 {
 			res.Violate(sig, fmt.Sprintf("Parse exceeded the loop-tick budget (%d ticks for %d bytes): unbounded loop on input class %s", o.ticks, len(data), class),
-				verifrt.CaseReplay(i, map[string]any{"input": saveInput(res, "C06", data), "class": class}))
+				verifrt.CaseReplay(i, map[string]any{"input": vfSaveInput(res, "C06", data), "class": class}))
 		}
 		return false
 	case o.pv != nil:
-		sig := "parse.panic:" + topFrame(o.stack)
+		sig := "parse.panic:" + vfTopFrame(o.stack)
 		res.Violate(sig, fmt.Sprintf("Parse panicked on input class %s (%d bytes): %v\n%s", class, len(data), o.pv, verifrt.Sprintf("%.1500s", o.stack)),
-			verifrt.CaseReplay(i, map[string]any{"input": saveInput(res, "C06", data), "class": class}))
+			verifrt.CaseReplay(i, map[string]any{"input": vfSaveInput(res, "C06", data), "class": class}))
 		return false
 	case o.f == nil && o.err == nil:
 		res.Violate("parse.nil-nil:"+class, "Parse returned neither a result nor an error", verifrt.CaseReplay(i, map[string]any{"class": class}))
@@ -383,7 +383,7 @@ func judgeTotality(res *verifrt.Result, check string, i int, class string, data 
 	return true
 }
 
-func expectCounts(cf *verifref.CounterFile) map[string]uint64 {
+func vfExpectCounts(cf *verifref.CounterFile) map[string]uint64 {
 	m := map[string]uint64{}
 	for _, rec := range cf.Records {
 		m[verifref.ExpandStack(rec.Name)] = rec.Value
@@ -391,7 +391,7 @@ func expectCounts(cf *verifref.CounterFile) map[string]uint64 {
 	return m
 }
 
-func diffCounts(got, want map[string]uint64) string {
+func vfDiffCounts(got, want map[string]uint64) string {
 	var ds []string
 	for k, v := range want {
 		if g, ok := got[k]; !ok {
@@ -415,12 +415,12 @@ func diffCounts(got, want map[string]uint64) string {
 func TestVerifC06(t *testing.T) {
 	const check = "C06.parse"
 	res := verifrt.NewResult(check)
-	res.Rule = "inputs = random byte strings, targeted damage classes applied to valid counter files, and well-formed files from the reference writer and from the library's writer; each decoded by counter.Parse under a loop-tick budget and panic/fault guard; well-formed ones compared with the independent decoder. distinct = distinct input hashes; non-trivial = input has the valid prefix and >= 16KiB (reaches the header/bucket walk) "
+	res.Rule = "inputs = random byte strings, targeted vfDamage classes applied to valid counter files, and well-formed files from the reference writer and from the library's writer; each decoded by counter.Parse under a loop-tick budget and panic/fault guard; well-formed ones compared with the independent decoder. distinct = distinct input hashes; non-trivial = input has the valid prefix and >= 16KiB (reaches the header/bucket walk) "
 	nb := 8
 	total := verifrt.Scale(24000, 1600000)
 	per := total / nb
 	verifrt.RunBatches("TestVerifC06", res, nb, 0, 30*time.Minute, "parse.death", func(b int, r *verifrt.Result, cur *verifrt.Current) {
-		dir := vtmp("c06-")
+		dir := vfVtmp("c06-")
 		defer os.RemoveAll(dir)
 		lo, hi := verifrt.CaseRange(check, b, per)
 		for i := lo; i < hi; i++ {
@@ -456,39 +456,39 @@ func TestVerifC06(t *testing.T) {
 						}
 					}
 					var err error
-					if data, err = verifref.BuildCounterFile(genMeta(rnd), es); err != nil {
+					if data, err = verifref.BuildCounterFile(vfGenMeta(rnd), es); err != nil {
 						panic(err)
 					}
 					class = "wellformed-long-chain"
 				} else if kind == 1 {
-					data, _, _ = genValidFile(rnd, verifrt.Pick(rnd, []int{3, 30, 300, 3000}))
+					data, _, _ = vfGenValidFile(rnd, verifrt.Pick(rnd, []int{3, 30, 300, 3000}))
 					class = "wellformed-ref"
 				} else {
-					es := genEntries(rnd, rnd.Intn(verifrt.Pick(rnd, []int{3, 30, 300})+1))
+					es := vfGenEntries(rnd, rnd.Intn(verifrt.Pick(rnd, []int{3, 30, 300})+1))
 					var err error
-					data, err = writeWithLibrary(dir, genMeta(rnd), es)
+					data, err = vfWriteWithLibrary(dir, vfGenMeta(rnd), es)
 					if err != nil {
 						r.Inconc("library writer failed: " + err.Error())
 						continue
 					}
 					class = "wellformed-lib"
 				}
-			default: // damage
-				base, _, _ := genValidFile(rnd, verifrt.Pick(rnd, []int{2, 8, 40}))
+			default: // vfDamage
+				base, _, _ := vfGenValidFile(rnd, verifrt.Pick(rnd, []int{2, 8, 40}))
 				cf, err := verifref.ParseCounterFile(base)
 				if err != nil {
 					r.Violate("ref-writer-vs-ref-reader", "reference writer output rejected by reference reader: "+err.Error(), verifrt.CaseReplay(i, nil))
 					continue
 				}
-				dm := damages[rnd.Intn(len(damages))]
+				dm := vfDamages[rnd.Intn(len(vfDamages))]
 				data = dm.apply(rnd, base, cf)
 				if data == nil {
 					continue
 				}
 				class = "damage:" + dm.class
-				if rnd.Intn(4) == 0 { // stack two damages
+				if rnd.Intn(4) == 0 { // stack two vfDamages
 					if cf2, err := verifref.ParseCounterFile(data); err == nil {
-						dm2 := damages[rnd.Intn(len(damages))]
+						dm2 := vfDamages[rnd.Intn(len(vfDamages))]
 						if d2 := dm2.apply(rnd, data, cf2); d2 != nil {
 							data = d2
 							class += "+" + dm2.class
@@ -505,8 +505,8 @@ func TestVerifC06(t *testing.T) {
 			if len(data) >= verifref.PageSize && strings.HasPrefix(string(data[:28]), verifref.Prefix) {
 				r.Distinct(verifrt.Hash(data))
 			}
-			o := monitoredParse(data)
-			if !judgeTotality(r, check, i, class, data, o) {
+			o := vfMonitoredParse(data)
+			if !vfJudgeTotality(r, check, i, class, data, o) {
 				continue
 			}
 			if o.err == nil {
@@ -518,53 +518,53 @@ func TestVerifC06(t *testing.T) {
 			cf, rerr := verifref.ParseCounterFile(data)
 			if rerr != nil {
 				if wellFormed {
-					r.Violate("wellformed-rejected-by-ref:"+class, "reference reader rejects a file written by "+class+": "+rerr.Error(), verifrt.CaseReplay(i, map[string]any{"input": saveInput(r, "C06", data)}))
+					r.Violate("wellformed-rejected-by-ref:"+class, "reference reader rejects a file written by "+class+": "+rerr.Error(), verifrt.CaseReplay(i, map[string]any{"input": vfSaveInput(r, "C06", data)}))
 				}
 				continue
 			}
 			r.Hit("ref-accepts")
 			if o.err != nil {
-				r.Violate("parse.rejects-wellformed:"+class, fmt.Sprintf("Parse rejects a well-formed file (%d records): %v", len(cf.Records), o.err), verifrt.CaseReplay(i, map[string]any{"input": saveInput(r, "C06", data)}))
+				r.Violate("parse.rejects-wellformed:"+class, fmt.Sprintf("Parse rejects a well-formed file (%d records): %v", len(cf.Records), o.err), verifrt.CaseReplay(i, map[string]any{"input": vfSaveInput(r, "C06", data)}))
 				continue
 			}
 			if !reflect.DeepEqual(o.f.Meta, cf.MetaKV) {
-				r.Violate("parse.meta-mismatch", fmt.Sprintf("Meta differs: got %q want %q", o.f.Meta, cf.MetaKV), verifrt.CaseReplay(i, map[string]any{"input": saveInput(r, "C06", data)}))
+				r.Violate("parse.meta-mismatch", fmt.Sprintf("Meta differs: got %q want %q", o.f.Meta, cf.MetaKV), verifrt.CaseReplay(i, map[string]any{"input": vfSaveInput(r, "C06", data)}))
 			}
-			if d := diffCounts(o.f.Count, expectCounts(cf)); d != "" {
-				r.Violate("parse.count-mismatch", "Count differs from the reference decoder: "+d, verifrt.CaseReplay(i, map[string]any{"input": saveInput(r, "C06", data)}))
+			if d := vfDiffCounts(o.f.Count, vfExpectCounts(cf)); d != "" {
+				r.Violate("parse.count-mismatch", "Count differs from the reference decoder: "+d, verifrt.CaseReplay(i, map[string]any{"input": vfSaveInput(r, "C06", data)}))
 			}
 			r.HitN("records-compared", len(cf.Records))
 			if i%4 == 1 {
 				// the exported path used by countertest / gotelemetry: ReadFile (mmap based)
-				p := writeTemp(dir, "rf.v1.count", data)
+				p := vfWriteTemp(dir, "rf.v1.count", data)
 				var ctrs, stacks map[string]uint64
 				var rerr error
-				verifrt.SetTickBudget(parseTickBudget(len(data)))
-				pv, stack := guarded(func() { ctrs, stacks, rerr = ReadFile(p) })
+				verifrt.SetTickBudget(vfParseTickBudget(len(data)))
+				pv, stack := vfGuarded(func() { ctrs, stacks, rerr = ReadFile(p) })
 				over := verifrt.TickExceeded()
 				verifrt.SetTickBudget(0)
 				switch {
 				case over || pv != nil:
-					r.Violate("readfile.total", fmt.Sprintf("ReadFile did not return normally on a well-formed file (loop=%v): %v\n%.600s", over, pv, stack), verifrt.CaseReplay(i, map[string]any{"input": saveInput(r, "C06", data)}))
+					r.Violate("readfile.total", fmt.Sprintf("ReadFile did not return normally on a well-formed file (loop=%v): %v\n%.600s", over, pv, stack), verifrt.CaseReplay(i, map[string]any{"input": vfSaveInput(r, "C06", data)}))
 				case rerr != nil:
-					r.Violate("readfile.rejects-wellformed", "ReadFile rejects a well-formed file: "+rerr.Error(), verifrt.CaseReplay(i, map[string]any{"input": saveInput(r, "C06", data)}))
+					r.Violate("readfile.rejects-wellformed", "ReadFile rejects a well-formed file: "+rerr.Error(), verifrt.CaseReplay(i, map[string]any{"input": vfSaveInput(r, "C06", data)}))
 				default:
-					want := expectCounts(cf)
+					want := vfExpectCounts(cf)
 					got := map[string]uint64{}
 					for k, v := range ctrs {
 						if strings.Contains(k, "\n") {
-							r.Violate("readfile.stack-among-counters", fmt.Sprintf("ReadFile returned the stack counter %q among the plain counters", trunc40(k)), verifrt.CaseReplay(i, nil))
+							r.Violate("readfile.stack-among-counters", fmt.Sprintf("ReadFile returned the stack counter %q among the plain counters", vfTrunc40(k)), verifrt.CaseReplay(i, nil))
 						}
 						got[k] = v
 					}
 					for k, v := range stacks {
 						if !strings.Contains(k, "\n") {
-							r.Violate("readfile.counter-among-stacks", fmt.Sprintf("ReadFile returned the plain counter %q among the stack counters", trunc40(k)), verifrt.CaseReplay(i, nil))
+							r.Violate("readfile.counter-among-stacks", fmt.Sprintf("ReadFile returned the plain counter %q among the stack counters", vfTrunc40(k)), verifrt.CaseReplay(i, nil))
 						}
 						got[k] = v
 					}
-					if d := diffCounts(got, want); d != "" {
-						r.Violate("readfile.count-mismatch", "ReadFile differs from the reference decoder: "+d, verifrt.CaseReplay(i, map[string]any{"input": saveInput(r, "C06", data)}))
+					if d := vfDiffCounts(got, want); d != "" {
+						r.Violate("readfile.count-mismatch", "ReadFile differs from the reference decoder: "+d, verifrt.CaseReplay(i, map[string]any{"input": vfSaveInput(r, "C06", data)}))
 					}
 					r.Hit("readfile-compared")
 				}
